@@ -251,6 +251,11 @@ def run_shard(desc) -> Acc:
                         ex = tk.exception()
                         if isinstance(ex, InvalidCommandError) and own and ref[1] == inv_id:
                             acc.hit("pending_invalid_command")
+                        elif ref is not None and ref[0] == pseq and ref[1] in (pid, inv_id) and not decodes:
+                            # the command's own response (its sequence number AND its frame ID), with a payload that
+                            # does not decode: ending the command with an error is not "completing it with the
+                            # payload of a different command" - the property leaves this open
+                            acc.hit("pending_failed_by_its_own_malformed_response")
                         else:
                             acc.violation("C08/pending/failed-by-foreign-frame",
                                           f"pending {kind} (seq {pseq}) ended with {ex!r} after frame {frame.hex()}", case)
